@@ -62,11 +62,20 @@ func monotoneAsMap(q string) string {
 	})
 }
 
+// Solver budgets are CPU seconds (ulimit -t), not wall-clock seconds: on a busy
+// machine a query then takes longer but gets the same amount of work done, so
+// that verdicts do not depend on the load. The solver's own wall-clock limit and
+// the context deadline are generous backstops (15 times the budget).
 func runSolver(ctx context.Context, sp solverSpec, query string, timeoutS int, wantModel bool) SolveResult {
-	ctx, cancel := context.WithTimeout(ctx, time.Duration(timeoutS+2)*time.Second)
+	wall := timeoutS * 15
+	if wall < 120 {
+		wall = 120
+	}
+	ctx, cancel := context.WithTimeout(ctx, time.Duration(wall+5)*time.Second)
 	defer cancel()
-	args := sp.cmd(timeoutS)
-	cmd := exec.CommandContext(ctx, args[0], args[1:]...)
+	args := sp.cmd(wall)
+	sh := fmt.Sprintf("ulimit -t %d; exec \"$@\"", timeoutS+1)
+	cmd := exec.CommandContext(ctx, "/bin/sh", append([]string{"-c", sh, "solver"}, args...)...)
 	if sp.rewrite != nil {
 		query = sp.rewrite(query)
 	}
@@ -97,6 +106,11 @@ func runSolver(ctx context.Context, sp solverSpec, query string, timeoutS int, w
 	case first == "unknown":
 		r.Status = "unknown"
 	case strings.Contains(first, "timeout") || ctx.Err() != nil:
+		r.Status = "timeout"
+	case cmd.ProcessState != nil && !cmd.ProcessState.Exited():
+		// killed by a signal: the CPU budget (SIGXCPU / SIGKILL from ulimit -t)
+		r.Status = "timeout"
+	case first == "" || strings.Contains(s, "Killed") || strings.Contains(s, "CPU time limit"):
 		r.Status = "timeout"
 	default:
 		r.Status = "error"
